@@ -4,6 +4,9 @@ CONSTANTS
   Pinned = FALSE
   InPlace = FALSE
   Reuse = FALSE
+  WideEnv = TRUE
+  Share = "period"
+  AliasWrite = "none"
   MaxPar = 3
 INVARIANTS TypeOK Linearizable Disciplined
 CONSTRAINT Bounded
